@@ -287,6 +287,21 @@ CLAIMED["C11"] = {
     "design": "5 C11",
 }
 
+CLAIMED["C01"] = {
+    "text": "Brackets.tla is the grammar-independent part of the statement as a state machine over character classes: what is code, comment, string / char / "
+            "back-quoted literal (with escapes), and the bracket stack; TLC checks StackIsOpeners, DepthBounded, TriviaMeansNoBrackets and StrayIsFinal on every "
+            "text up to MaxLen, and Position.tla (shared with C20) checks CursorInBounds for every scanner call sequence. The spec then decides, for every text, "
+            "necessary conditions the real parser must meet: outcome is a tree or eval_error; Accepts => brackets balanced and literals terminated; blanks-and-"
+            "comments-only => accepted; an empty tree => blanks and comments only. Replayed: every text of length <= 4 (quick) / 5 (thorough) over 17 classes, "
+            "generated valid programs (must be accepted) with bracket/quote mutations and truncations classified by TLC, sequences of statement-level keywords and "
+            "blocks, interpolations with unbalanced code; plus robustness under ASan+UBSan: nesting ramps up to 200,000 (thorough 2,000,000) deep, arbitrary bytes "
+            "incl. NUL and > 0x7e.",
+    "note": "The conditions are necessary, not a grammar: a wrongly accepted text whose brackets balance is outside this check. Where a back-quoted name contains a "
+            "blank or a comment opener the scanner makes no claim (Id_ skips blanks through Eol()). Escape shapes inside literals are C16's.",
+    "technique": "TLC model checking of the lexical/bracket automaton and of the cursor + spec-decided necessary conditions replayed against the implementation (exhaustive small texts, classified mutations) + sanitizer robustness sweep",
+    "design": "5 C01",
+}
+
 PENDING_REASON = "check not built yet in this session; planned (see DESIGN.md section 8)"
 
 ALL = [f"C{i:02d}" for i in range(1, 21)]
